@@ -91,4 +91,34 @@ PROPS = {
         thorough=dict(budget_s=1500, profiles=[P("C10", 8000), P("C10", 300, "tasks")]),
         reach=["c10_set_get_pairs"],
     ),
+    "C11": dict(
+        level="fault_enumeration",
+        rule="the model answers a chosen subset of fragments with an error from a 14-entry catalogue (ERR, WRONGTYPE, LOADING, CLUSTERDOWN, TRYAGAIN, "
+             "CROSSSLOT, READONLY, BUSY, NOSCRIPT, OOM, MASTERDOWN, ...); quick: seeded random subsets/orders; thorough: every request kind x fragment "
+             "count k<=4 x non-empty erroring subset x error kind, each under a seeded arrival order; oracle: single-key -> error verbatim, split -> "
+             "some error reply, never a success value, later requests and other clients still served, proxy alive; non-trivial = a backend error occurred",
+        quick=dict(budget_s=80, profiles=[P("C11", 400)]),
+        thorough=dict(budget_s=1500, profiles=[P("C11", 8000), P("C11", 0, enumerate=["enum:%d" % i for i in range(4 * 14 * 26)])]),
+        reach=["c11_error_replies"],
+    ),
+    "C12": dict(
+        level="exploration",
+        rule="offender clients send grammar-mutated RESP (zero/negative/huge/overflowing/non-canonical counts and lengths, $-1 arguments, bare CR/LF, wrong "
+             "type markers, inline commands, truncation, unfulfilled lengths, random bytes) in seeded segmentation while witness clients run closed-loop "
+             "round trips; oracle: proxy alive and not spinning, witnesses served correctly, no backend ever records what redis-server's parser rejects, "
+             "a definite protocol error is answered with an error or a close by the end of the settle phase",
+        quick=dict(budget_s=80, profiles=[P("C12", 600)]),
+        thorough=dict(budget_s=1500, profiles=[P("C12", 30000)]),
+        reach=["c12_definite_protocol_errors"],
+    ),
+    "C17": dict(
+        level="exploration",
+        rule="every documented command name (Yes and No rows of docs/command.md, read at check time) plus unknown names in mixed case, argument counts "
+             "0..arity+2, request and reply sizes L-1, L, L+1 for limits L in {64, 200, 4 KiB, 6 MiB}, alone and inside pipelines delivered in one or many "
+             "segments; oracle: served iff supported and arity ok (Redis' documented arity; in-between counts unspecified) and own size <= L, otherwise "
+             "the corresponding error and nothing reaches a backend; non-trivial = at least one request had to be rejected",
+        quick=dict(budget_s=80, profiles=[P("C17", 600)]),
+        thorough=dict(budget_s=1500, profiles=[P("C17", 30000)]),
+        reach=["c17_rejected", "c17_near_limit"],
+    ),
 }
